@@ -75,6 +75,8 @@ class ExprMixin:
             return v.term != 0
         if isinstance(v, VNone):
             return z3.BoolVal(False)
+        if isinstance(v, VReal):
+            return v.term != 0
         if isinstance(v, VStr):
             return z3.Length(v.term) > 0
         if isinstance(v, VTuple):
@@ -127,6 +129,8 @@ class ExprMixin:
         if c is Ellipsis:
             return VPy(obj=Ellipsis)
         if isinstance(c, float):
+            return VReal(z3.RealVal(repr(c))) if c == c and c not in (float("inf"), float("-inf")) else VPy(obj=c)
+        if isinstance(c, complex):
             return VPy(obj=c)
         if isinstance(c, bytes):
             return VPy(obj=c)
@@ -226,6 +230,10 @@ class ExprMixin:
     # ------------------------------------------------------------ operators
     def ev_UnaryOp(self, n, env):
         v = self.ev(n.operand, env)
+        if hasattr(self.world, "unary_hook"):
+            h = self.world.unary_hook(self, n.op, v)
+            if h is not None:
+                return h
         if isinstance(n.op, ast.Not):
             return VBool(z3.Not(self.truthy(v)))
         if isinstance(n.op, ast.USub):
@@ -233,6 +241,8 @@ class ExprMixin:
                 return VInt(-v.term)
             if isinstance(v, VBool):
                 return VInt(-z3.If(v.term, 1, 0))
+            if isinstance(v, VReal):
+                return VReal(-v.term)
             if isinstance(v, VPy) and isinstance(v.obj, float):
                 return VPy(obj=-v.obj)
         if isinstance(n.op, ast.UAdd) and isinstance(v, VInt):
@@ -253,7 +263,30 @@ class ExprMixin:
         b = self.ev(n.right, env)
         return self.binop(n.op, a, b)
 
+    def as_real_term(self, v: V):
+        if isinstance(v, VReal):
+            return v.term
+        t = self.as_int_term(v)
+        return None if t is None else z3.ToReal(t)
+
     def binop(self, op, a: V, b: V) -> V:
+        if isinstance(a, VRef) or isinstance(b, VRef):
+            h = self.world.binop_hook(self, op, a, b)
+            if h is not None:
+                return h
+        if isinstance(a, VReal) or isinstance(b, VReal):
+            ra, rb = self.as_real_term(a), self.as_real_term(b)
+            if ra is not None and rb is not None:
+                if isinstance(op, ast.Add):
+                    return VReal(ra + rb)
+                if isinstance(op, ast.Sub):
+                    return VReal(ra - rb)
+                if isinstance(op, ast.Mult):
+                    return VReal(ra * rb)
+                if isinstance(op, ast.Div):
+                    if self.branch(rb == 0):
+                        raise PyRaise("ZeroDivisionError")
+                    return VReal(ra / rb)
         ia, ib = self.as_int_term(a), self.as_int_term(b)
         if ia is not None and ib is not None:
             if isinstance(op, ast.Add):
@@ -401,6 +434,10 @@ class ExprMixin:
         result = None
         for op, rn in zip(n.ops, n.comparators):
             right = self.ev(rn, env)
+            if len(n.ops) == 1 and hasattr(self.world, "compare_hook"):
+                h = self.world.compare_hook(self, op, left, right)
+                if h is not None:
+                    return h
             r = self.compare(op, left, right)
             result = r if result is None else z3.And(result, r)
             left = right
@@ -421,8 +458,14 @@ class ExprMixin:
             return z3.And(a.term == b.term) if a.enum == b.enum else z3.BoolVal(False)
         if isinstance(a, VStr) and isinstance(b, VStr):
             return a.term == b.term
+        if isinstance(a, VReal) or isinstance(b, VReal):
+            ra, rb = self.as_real_term(a), self.as_real_term(b)
+            if ra is not None and rb is not None:
+                return ra == rb
         if isinstance(a, VNone) or isinstance(b, VNone):
             return z3.BoolVal(isinstance(a, VNone) and isinstance(b, VNone))
+        if (isinstance(a, VRef) and a.sort == "Opaque") or (isinstance(b, VRef) and b.sort == "Opaque"):
+            return z3.Bool(self.fresh_name("opq_eq"))
         if isinstance(a, VRef) and isinstance(b, VRef):
             if a.sort != b.sort:
                 return z3.BoolVal(False)
@@ -511,6 +554,10 @@ class ExprMixin:
             return self.contains(a, b)
         if isinstance(op, ast.NotIn):
             return z3.Not(self.contains(a, b))
+        if isinstance(a, VReal) or isinstance(b, VReal):
+            ra, rb = self.as_real_term(a), self.as_real_term(b)
+            if ra is not None and rb is not None:
+                return {ast.Lt: ra < rb, ast.LtE: ra <= rb, ast.Gt: ra > rb, ast.GtE: ra >= rb}[type(op)]
         ia, ib = self.as_int_term(a), self.as_int_term(b)
         if ia is not None and ib is not None:
             if isinstance(op, ast.Lt):
@@ -624,6 +671,10 @@ class ExprMixin:
 
             a, b = clamp(lo_t, z3.IntVal(0)), clamp(hi_t, n)
             return VStr(z3.SubString(base.term, a, z3.If(b > a, b - a, 0)))
+        if isinstance(base, VRef):
+            h = self.world.getitem_hook(self, base, VPy(obj=("slice", lo, hi)))
+            if h is not None:
+                return h
         raise OutOfSubset(f"slice of {base!r}")
 
     # ------------------------------------------------------------ strings
@@ -637,6 +688,8 @@ class ExprMixin:
             return VStr(z3.If(v.term, z3.StringVal("True"), z3.StringVal("False")))
         if isinstance(v, VNone):
             return VStr("None")
+        if isinstance(v, VReal):
+            return VStr(self.fresh_const("str_of_float", z3.StringSort()))
         h = self.world.str_hook(self, v)
         if h is not None:
             return h
@@ -680,6 +733,12 @@ class ExprMixin:
 
     def ev_Call(self, n, env):
         fn = self.ev(n.func, env)
+        if isinstance(fn, VRef) and fn.sort == "Opaque":
+            for a in n.args:
+                self.ev(a.value if isinstance(a, ast.Starred) else a, env)
+            for k in n.keywords:
+                self.ev(k.value, env)
+            return self.call(fn, [], {}, n)
         args, kwargs = [], {}
         for a in n.args:
             if isinstance(a, ast.Starred):
@@ -709,6 +768,21 @@ class ExprMixin:
     def ev_GeneratorExp(self, n, env):
         return self.comp_list(n, env, mutable=False)
 
+    def ev_DictComp(self, n, env):
+        if len(n.generators) != 1:
+            raise OutOfSubset("nested dict comprehension")
+        g = n.generators[0]
+        it = self.iter_view(self.ev(g.iter, env))
+        if not isinstance(it, list):
+            raise OutOfSubset("dict comprehension over a symbolic iterable")
+        out = []
+        for item in it:
+            e2 = Env(env)
+            self.bind_target(g.target, item, e2)
+            if all(self.test(c, e2) for c in g.ifs):
+                out.append((self.ev(n.key, e2), self.ev(n.value, e2)))
+        return VDict(out)
+
     def ev_SetComp(self, n, env):
         l = self.comp_list(n, env, mutable=False)
         if isinstance(l, VList):
@@ -725,6 +799,8 @@ class ExprMixin:
             raise OutOfSubset("nested comprehension generators")
         g = n.generators[0]
         it = self.ev(g.iter, env)
+        if isinstance(it, VRef) and it.sort == "Opaque":
+            return it
         it = self.iter_view(it)
         if isinstance(it, list):
             out = []
